@@ -103,10 +103,19 @@ func (dmx *Demuxer) NextPacket() (p *Packet, err error) {
 
 	// Create packet buffer if not exists
 	if dmx.packetBuffer == nil {
-		if dmx.packetBuffer, err = newPacketBuffer(dmx.r, dmx.optPacketSize, dmx.optPacketSkipper); err != nil {
+		// Only keep a packet buffer that is usable: one whose packet size could not be detected
+		// would return the same error forever
+		var pb *packetBuffer
+		if pb, err = newPacketBuffer(dmx.r, dmx.optPacketSize, dmx.optPacketSkipper); err != nil {
+			// Nothing is left to detect a packet size from
+			if errors.Is(err, io.EOF) {
+				err = ErrNoMorePackets
+				return
+			}
 			err = fmt.Errorf("astits: creating packet buffer failed: %w", err)
 			return
 		}
+		dmx.packetBuffer = pb
 	}
 
 	// Fetch next packet from buffer
